@@ -154,20 +154,47 @@ def check_stream(ctx, c):
     origf = prog.simple_return(c, 'original_seed')
     if seedf is None or origf is None or not is_self_attr(seedf) or not is_self_attr(origf):
         raise AnalysisError(f'anchor vanished: {c}.seed()/original_seed() do not return fields')
-    stores = [n for n in walk_shallow(ss) if isinstance(n, (ast.Assign, ast.AnnAssign)) and any(is_self_attr(t, seedf.attr) for t in (n.targets if isinstance(n, ast.Assign) else [n.target]))]
-    seeds = [x for x in walk_shallow(ss) if isinstance(x, ast.Call) and isinstance(x.func, ast.Attribute) and x.func.attr == 'seed' and isG(x.func.value)]
-    ok = len(stores) == 1 and unparse(stores[0].value) == p and len(seeds) == 1 and len(seeds[0].args) == 1 and unparse(seeds[0].args[0]) in (p, unparse(seedf)) \
-        and len(body_of(ss)) == 2
-    ctx.ob('R12.3', f'{c}.set_seed', ok, sample=f'{c}.set_seed: {[short(s) for s in body_of(ss)]}')
+    from ..pathsum import PathSum, Unsupported as _Uns
+
+    def seed_summary(fn_, env_):
+        """[(stored current seed or None, stored original seed or None, [argument texts of self.G.seed(..) calls])] per accepted path"""
+        outs = PathSum(prog, c, fn_, env_, inline_self=True).run()
+        res = []
+        for o in outs:
+            if o.kind == 'raise':
+                continue
+            if any(isinstance(b_, str) for (_c, b_) in o.conds):
+                raise _Uns('undecided condition')
+            seeds_ = [unparse(k.args[0]) if k.args else '?' for k in o.calls if isinstance(k.func, ast.Attribute) and k.func.attr == 'seed' and isG(k.func.value)]
+            res.append((unparse(o.store[seedf.attr]) if seedf.attr in o.store else None, unparse(o.store[origf.attr]) if origf.attr in o.store else None, seeds_))
+        return res
+    cur = f'self.{seedf.attr}'
+    try:
+        rs_ = seed_summary(ss, {})
+        ok = bool(rs_) and all(st_ == p and sd_ == [p] for (st_, _o, sd_) in rs_)
+        shown = rs_
+    except _Uns:
+        stores = [n for n in walk_shallow(ss) if isinstance(n, (ast.Assign, ast.AnnAssign)) and any(is_self_attr(t, seedf.attr) for t in (n.targets if isinstance(n, ast.Assign) else [n.target]))]
+        seeds = [x for x in walk_shallow(ss) if isinstance(x, ast.Call) and isinstance(x.func, ast.Attribute) and x.func.attr == 'seed' and isG(x.func.value)]
+        ok = len(stores) == 1 and unparse(stores[0].value) == p and len(seeds) == 1 and len(seeds[0].args) == 1 and unparse(seeds[0].args[0]) in (p, unparse(seedf)) \
+            and len(body_of(ss)) == 2
+        shown = [short(s_) for s_ in body_of(ss)]
+    ctx.ob('R12.3', f'{c}.set_seed', ok, sample=f'{c}.set_seed({p}): (current seed, original seed, generator seeded with) per path = {shown}')
     if not ok:
-        ctx.finding('R12.3', f'{c}.set_seed', ci, ss, f'set_seed must store `{p}` as the current seed and seed the private generator with the same value, nothing else',
-                    where=f'{c}.set_seed')
+        ctx.finding('R12.3', f'{c}.set_seed', ci, ss, f'set_seed must store `{p}` as the current seed and seed the private generator with the same value, nothing else '
+                    f'(summary per path: current seed, original seed, generator seeded with = {shown})', where=f'{c}.set_seed')
     rs = prog.method(c, 'reset', inherited=False)
     b = body_of(rs)
-    ok = len(b) == 1 and unparse(b[0]) in (f'self.set_seed({unparse(seedf)})', f'self.{G}.seed({unparse(seedf)})')
-    ctx.ob('R12.3', f'{c}.reset', ok, sample=f'{c}.reset: {[short(s) for s in b]}')
+    try:
+        rr_ = seed_summary(rs, {})
+        ok = bool(rr_) and all(st_ in (None, cur) and sd_ == [cur] for (st_, _o, sd_) in rr_)
+        shown = rr_
+    except _Uns:
+        ok = len(b) == 1 and unparse(b[0]) in (f'self.set_seed({unparse(seedf)})', f'self.{G}.seed({unparse(seedf)})')
+        shown = [short(s_) for s_ in b]
+    ctx.ob('R12.3', f'{c}.reset', ok, sample=f'{c}.reset: {shown}')
     if not ok:
-        ctx.finding('R12.3', f'{c}.reset', ci, rs, f'reset must re-seed with the current seed `{unparse(seedf)}` (not the original seed, not a new one)', where=f'{c}.reset')
+        ctx.finding('R12.3', f'{c}.reset', ci, rs, f'reset must re-seed with the current seed `{unparse(seedf)}` (not the original seed, not a new one): {shown}', where=f'{c}.reset')
     for m, fn in ci.methods.items():
         for n in walk_shallow(fn):
             if is_self_attr(n, origf.attr) and isinstance(n.ctx, ast.Store):
@@ -180,6 +207,17 @@ def check_stream(ctx, c):
     calls = [x for x in walk_shallow(init) if isinstance(x, ast.Call) and isinstance(x.func, ast.Attribute) and is_self_attr(x.func) and x.func.attr == 'set_seed']
     ostore = [n for n in walk_shallow(init) if isinstance(n, (ast.Assign, ast.AnnAssign)) and any(is_self_attr(t, origf.attr) for t in (n.targets if isinstance(n, ast.Assign) else [n.target]))]
     ok = len(calls) == 1 and len(ostore) == 1 and unparse(calls[0].args[0]) == unparse(ostore[0].value)
+    if not ok:
+        # by cases (seed given / not given): original seed, current seed and the value the generator is seeded with are one and the same
+        try:
+            sp_ = init.args.args[1].arg
+            allr = []
+            for given in (True, False):
+                env_ = {('isnone', sp_): not given, ('bool', f'isinstance({sp_}, int)'): True}
+                allr += [(given, r_) for r_ in seed_summary(init, env_)]
+            ok = bool(allr) and all(o_ is not None and st_ == o_ and sd_ == [o_] and (not given or o_ == sp_) for (given, (st_, o_, sd_)) in allr)
+        except _Uns:
+            pass
     ctx.ob('R12.3', f'{c}.__init__', ok, sample=f'{c}.__init__: original seed := {short(ostore[0].value) if ostore else "?"}; {short(calls[0]) if calls else "no set_seed"}')
     if not ok:
         ctx.finding('R12.3', f'{c}.__init__:seed', ci, init, 'the constructor must remember the seed as original seed and seed the generator with the same value', where=f'{c}.__init__')
